@@ -1,0 +1,26 @@
+//go:build verif
+
+package msgpackpatch
+
+// Machine-checked contracts (comment-only; compiled only with -tags verif).
+
+// Comparators (property C13): the three-way result is the numeric order of the operands.
+//@ func cmpInt64(a, b) (r)
+//@   property C13
+//@   nopanic
+//@   ensures[order] (r == -1 <==> a < b) && (r == 0 <==> a == b) && (r == 1 <==> a > b)
+//@ func cmpUint64(a, b) (r)
+//@   property C13
+//@   nopanic
+//@   ensures[order] (r == -1 <==> a < b) && (r == 0 <==> a == b) && (r == 1 <==> a > b)
+//@ func cmpBool(a, b) (r)
+//@   property C13
+//@   nopanic
+//@   ensures[order] (r == 0 <==> (a <==> b)) && (r == -1 <==> (!a && b)) && (r == 1 <==> (a && !b))
+// Floats: numeric order on ordered operands; a NaN operand compares EQUAL TO NOTHING, so the result
+// must be none of -1, 0, 1 (it is reported as unordered).
+//@ func cmpFloat64(a, b) (r)
+//@   property C13
+//@   nopanic
+//@   ensures[ordered] feq(a, a) && feq(b, b) ==> (r == -1 <==> flt(a, b)) && (r == 0 <==> feq(a, b)) && (r == 1 <==> flt(b, a))
+//@   ensures[nan_equals_nothing] !feq(a, a) || !feq(b, b) ==> r != 0 && r != -1 && r != 1
